@@ -261,4 +261,17 @@ theorem crt_parts (r t1 : Nat) (hr : r < 1326) :
 theorem mod26_u8 (x : Nat) : x % 26 % 256 < 26 := by omega
 theorem mod51_u8 (x : Nat) : x % 51 % 256 < 51 := by omega
 
+/-! ### the spec's table and frame predicate -/
+
+/-- Reading the table backwards (for every word: only its bits 0..24 are read) gives these div/mod expressions. -/
+theorem decodeByLayout_eq (w : Nat) :
+    Spec.SchCoding.decodeByLayout w = ⟨w / 4 % 64, w / 8388608 % 2 + 2 * (w / 256 % 256) + 512 * (w % 4), w / 262144 % 32,
+      w / 16777216 % 2 + 2 * (w / 65536 % 4)⟩ := by
+  simp only [Spec.SchCoding.decodeByLayout, Spec.SchCoding.decodeByLayout.go, Spec.SchCoding.layout, Spec.SchCoding.Fields.mk.injEq, Nat.reduceAdd, Nat.reducePow]
+  omega
+
+theorem isSchFrame_iff (fn : Nat) :
+    Spec.SchCoding.isSchFrame fn = true ↔ (fn % 51 = 1 ∨ fn % 51 = 11 ∨ fn % 51 = 21 ∨ fn % 51 = 31 ∨ fn % 51 = 41) := by
+  simp only [Spec.SchCoding.isSchFrame, Bool.or_eq_true, beq_iff_eq, or_assoc]
+
 end OsmoVerif.SchDecode
